@@ -1,4 +1,4 @@
-//! Secondary target of C02/C03: the `cfg(windows)` threaded RawCommunicator of
+//! Secondary target of C02/C03/C04: the `cfg(windows)` threaded RawCommunicator of
 //! src/communicate.rs, extracted textually at build time, compiled on Linux
 //! (it needs only std) and run over real kernel pipes against the scripted
 //! helper child.  Same oracles as the real-process tier: exact bytes per
@@ -39,21 +39,46 @@ fn run_case(scratch: &std::path::Path, prop: &str, case: &RealCase) -> Result<()
     let mut got_out: Vec<u8> = vec![];
     let mut got_err: Vec<u8> = vec![];
     let mut size_limit: Option<usize> = None;
+    let mut time_limit: Option<Duration> = None;
     let mut i = 0usize;
     loop {
-        if let Some((s, _t)) = case.limits.get(i) {
+        if let Some((s, t)) = case.limits.get(i) {
             if let Some(s) = s {
                 size_limit = Some((*s).max(1) as usize);
             }
-        } else if size_limit.is_some() {
-            size_limit = Some(1 << 20);
+            if let Some(t) = t {
+                time_limit = Some(Duration::from_millis(*t as u64));
+            }
+        } else {
+            // drain: generous limits
+            if size_limit.is_some() {
+                size_limit = Some(1 << 20);
+            }
+            if time_limit.is_some() {
+                time_limit = Some(Duration::from_secs(3600));
+            }
         }
         i += 1;
-        let deadline: Option<Instant> = Some(Instant::now() + Duration::from_secs(600));
-        let (err, (o, e)) = comm.read(deadline, size_limit);
+        // without a time limit the guard deadline only keeps a broken tree from hanging the stage
+        let deadline: Instant = Instant::now() + time_limit.unwrap_or(Duration::from_secs(600));
+        let (err, (o, e)) = comm.read(Some(deadline), size_limit);
+        let mut timed_out = false;
         if let Some(e) = err {
-            let _ = p.terminate();
-            return fail("error", e.to_string());
+            if e.kind() == std::io::ErrorKind::TimedOut {
+                let now = Instant::now();
+                if time_limit.is_none() {
+                    let _ = p.terminate();
+                    return fail("harness-guard", "no read result within 600 s".into());
+                }
+                if now < deadline {
+                    let _ = p.terminate();
+                    return fail("timeout-early", format!("TimedOut reported {:?} before the limit {:?} had elapsed", deadline - now, time_limit));
+                }
+                timed_out = true;
+            } else {
+                let _ = p.terminate();
+                return fail("error", e.to_string());
+            }
         }
         if o.is_none() || e.is_some() != case.err_piped {
             return fail("stream-presence", format!("stdout present {}, stderr present {}", o.is_some(), e.is_some()));
@@ -61,13 +86,14 @@ fn run_case(scratch: &std::path::Path, prop: &str, case: &RealCase) -> Result<()
         let (o, e) = (o.unwrap_or_default(), e.unwrap_or_default());
         if let Some(l) = size_limit {
             if o.len() + e.len() > l {
+                let _ = p.terminate();
                 return fail("limit-exceeded", format!("read returned {}+{} bytes with size limit {}", o.len(), e.len(), l));
             }
         }
         let empty = o.is_empty() && e.is_empty();
         got_out.extend_from_slice(&o);
         got_err.extend_from_slice(&e);
-        if size_limit.is_none() || empty {
+        if !timed_out && (size_limit.is_none() || empty) {
             break;
         }
         if i > 200_000 {
@@ -88,13 +114,61 @@ fn run_case(scratch: &std::path::Path, prop: &str, case: &RealCase) -> Result<()
     child_report_check(&report, &input, case, &fail)
 }
 
-/// `wincheck stage wincomm <C02|C03> <quick|thorough>`
+/// C04: a child that writes for as long as it is read; the read must come back
+/// with TimedOut, not before the limit and not unboundedly after it.
+fn run_flood(prop: &str, limit_ms: u64, both: bool) -> Result<(), Fail> {
+    reap_all();
+    let helper = vchild_path();
+    let fail = |sig: &str, msg: String| -> CaseResult { Err(Fail::new(format!("{}:win_raw:{}", prop, sig), format!("{}\ncase=flood limit_ms={} both_streams={}", msg, limit_ms, both))) };
+    let argv: Vec<std::ffi::OsString> = if both {
+        vec!["/bin/sh".into(), "-c".into(), format!("\"{0}\" flood 2 & exec \"{0}\" flood 1", helper.display()).into()]
+    } else {
+        vec![helper.into_os_string(), "flood".into(), "1".into()]
+    };
+    let cfg = subprocess::PopenConfig { stdout: subprocess::Redirection::Pipe, stderr: if both { subprocess::Redirection::Pipe } else { subprocess::Redirection::None }, setpgid: true, ..Default::default() };
+    let mut p = subprocess::Popen::create(&argv, cfg).map_err(|e| Fail::new(format!("{}:win_raw:spawn-error", prop), e.to_string()))?;
+    let pid = p.pid().unwrap_or(0) as i32;
+    let mut comm = RawCommunicator::new(None, p.stdout.take(), p.stderr.take(), None);
+    let (tx, rx) = std::sync::mpsc::channel();
+    let limit = Duration::from_millis(limit_ms);
+    let h = std::thread::spawn(move || {
+        let deadline = Instant::now() + limit;
+        let (err, (o, e)) = comm.read(Some(deadline), None);
+        let _ = tx.send((err.map(|e| e.kind()), o.map(|v| v.len()).unwrap_or(0) + e.map(|v| v.len()).unwrap_or(0), Instant::now() >= deadline, Instant::now().saturating_duration_since(deadline)));
+        comm
+    });
+    // generous: "bounded" here means seconds, the defect class it looks for is "never"
+    let got = rx.recv_timeout(limit + Duration::from_secs(5));
+    unsafe { libc::kill(-pid, libc::SIGKILL) };
+    let _ = p.wait();
+    let comm = h.join();
+    drop(comm);
+    reap_all();
+    match got {
+        Err(_) => fail("overrun-unbounded", format!("read with a time limit of {} ms had not returned 5 s after the limit while the child kept writing", limit_ms)),
+        Ok((kind, _n, after_deadline, _late)) => {
+            if kind != Some(std::io::ErrorKind::TimedOut) {
+                return fail("flood-no-timeout", format!("read returned {:?} although the child never stops writing", kind));
+            }
+            if !after_deadline {
+                return fail("timeout-early", "TimedOut before the limit had elapsed".into());
+            }
+            Ok(())
+        }
+    }
+}
+
+/// `wincheck stage wincomm <C02|C03|C04> <quick|thorough>`
 pub fn stage(prop: &str, tier: &str) -> i32 {
     if let Some(e) = crate::EXTRACT_ERROR {
         eprintln!("win_raw stage skipped: {}", e);
         return 0;
     }
-    let prop_s: &'static str = if prop == "C03" { "C03" } else { "C02" };
+    let prop_s: &'static str = match prop {
+        "C03" => "C03",
+        "C04" => "C04",
+        _ => "C02",
+    };
     let seed: u64 = std::env::var("VERIF_SEED").ok().and_then(|s| s.trim().parse::<i128>().ok()).map(|v| v as u64).unwrap_or(1);
     let n: u32 = if tier == "thorough" { 6000 } else { 400 };
     let tmp = std::env::var("TMPDIR").unwrap_or_else(|_| "/tmp".into());
@@ -106,16 +180,26 @@ pub fn stage(prop: &str, tier: &str) -> i32 {
     let strat = case_strategy(prop_s);
     let mut done = 0u32;
     let mut limited = 0u32;
-    let mut failure: Option<(RealCase, Fail)> = None;
-    for _ in 0..n {
+    let mut failure: Option<(serde_json::Value, Fail)> = None;
+    let mut floods = 0u32;
+    for k in 0..n {
         let case = strat.new_tree(&mut runner).unwrap().current();
+        if prop_s == "C04" && k % 16 == 0 {
+            // every 16th case is a never-ending writer (limit and stream count from the generated case)
+            let limit_ms = [0u64, 3, 30, 150][case.input_seed as usize % 4];
+            floods += 1;
+            if let Err(f) = run_flood(prop_s, limit_ms, case.err_piped) {
+                failure = Some((json!({"flood": {"limit_ms": limit_ms, "both": case.err_piped}}), f));
+                break;
+            }
+        }
         if !case.limits.is_empty() {
             limited += 1;
         }
         match run_case(&scratch, prop_s, &case) {
             Ok(()) => done += 1,
             Err(f) => {
-                failure = Some((case, f));
+                failure = Some((serde_json::to_value(&case).unwrap(), f));
                 break;
             }
         }
@@ -140,7 +224,7 @@ pub fn stage(prop: &str, tier: &str) -> i32 {
     let ev = root.join("evidence").join(format!("{}.json", prop));
     if let Ok(b) = std::fs::read(&ev) {
         if let Ok(mut v) = serde_json::from_slice::<serde_json::Value>(&b) {
-            v["coverage"]["win_raw"] = json!({"what": "cfg(windows) threaded RawCommunicator extracted from src/communicate.rs, run over real pipes", "cases": done, "with_size_limits": limited, "violations": if failure.is_some() { 1 } else { 0 }, "wall_s": t0.elapsed().as_secs_f64()});
+            v["coverage"]["win_raw"] = json!({"what": "cfg(windows) threaded RawCommunicator extracted from src/communicate.rs, run over real pipes", "cases": done, "never_ending_writers": floods, "with_size_limits": limited, "violations": if failure.is_some() { 1 } else { 0 }, "wall_s": t0.elapsed().as_secs_f64()});
             if let Some(e) = v["coverage"]["evaluations"].as_u64() {
                 v["coverage"]["evaluations"] = json!(e + done as u64);
             }
@@ -157,11 +241,18 @@ pub fn stage(prop: &str, tier: &str) -> i32 {
 
 /// replay of a win_raw case
 pub fn replay(prop: &str, case: &serde_json::Value) -> CaseResult {
+    let prop_s: &'static str = match prop {
+        "C03" => "C03",
+        "C04" => "C04",
+        _ => "C02",
+    };
+    if case.get("flood").is_some() {
+        return run_flood(prop_s, case["flood"]["limit_ms"].as_u64().unwrap_or(0), case["flood"]["both"].as_bool().unwrap_or(false));
+    }
     let c: RealCase = serde_json::from_value(case.clone()).map_err(|e| Fail::new("bad-replay-file", e.to_string()))?;
     let tmp = std::env::var("TMPDIR").unwrap_or_else(|_| "/tmp".into());
     let scratch = std::path::PathBuf::from(tmp).join(format!("verif-wincomm-replay-{}", std::process::id()));
     std::fs::create_dir_all(&scratch).ok();
-    let prop_s: &'static str = if prop == "C03" { "C03" } else { "C02" };
     let r = run_case(&scratch, prop_s, &c);
     let _ = std::fs::remove_dir_all(&scratch);
     r
